@@ -15,6 +15,7 @@ import (
 	"sort"
 	"strconv"
 	"strings"
+	"sync/atomic"
 	"time"
 
 	sgbucket "github.com/couchbase/sg-bucket"
@@ -506,9 +507,18 @@ func verifFSSet(path string, exists bool) {
 
 func verifExplore(preemptions int) {}
 func verifJoin()                   { time.Sleep(200 * time.Millisecond) }
-func verifLiveThreads() int        { return 0 }
+func verifLiveThreads() int        { time.Sleep(100 * time.Millisecond); return int(atomic.LoadInt32(&activeFeedCount)) }
 func verifFireTimers() int         { return 0 }
 
 func verifDocSlotAny(db *sql.DB, i int) verifDoc {
 	return verifScanDoc(db.QueryRow(`SELECT `+verifDocCols+` FROM documents ORDER BY id LIMIT 1 OFFSET ?1`, i))
+}
+
+func verifDoneClosed(ch chan struct{}) bool {
+	select {
+	case _, ok := <-ch:
+		return !ok
+	default:
+		return false
+	}
 }
